@@ -115,7 +115,9 @@ def conversion(args):
     else:
         t4_output_filename = Path(args.input).with_suffix('.t4')
 
-    if t4_output_filename.resolve() == Path(args.input).resolve():
+    if (t4_output_filename.resolve() == Path(args.input).resolve()
+            or (t4_output_filename.exists()
+                and t4_output_filename.samefile(args.input))):
         msg = (f'the output file {t4_output_filename} is the input file '
                'itself; use the -o option to choose another name')
         raise ValueError(msg)
